@@ -629,6 +629,7 @@ theorem verifyGasLimit_iff (p h : Nat) (hp : p ≤ two63 - 1) (hh : h ≤ two63 
 structure ValidChild (env : Env) (chainId now : Nat) (p c : Header) : Prop where
   hash : env.hash p = c.parentHash
   number : p.number + 1 = c.number
+  rev : c.rev = p.rev
   timeParent : p.time < c.time
   timeFuture : c.time ≤ now + 15
   basic : validateBasic c = true
@@ -652,7 +653,7 @@ theorem verifyEip1559_ok {p c : Header} (h : verifyEip1559 p c = .ok) :
 theorem verifyHeader_ok {s : State} {now : Nat} {c : Header} (h : verifyHeader env s now c = .ok) :
     ∃ p, parentOf s c = some p ∧ env.hash p = c.parentHash ∧ p.time < c.time ∧ c.time ≤ now + 15 ∧
       verifyGasLimit p.gasLimit c.gasLimit = true ∧ calcBaseFee p = some c.baseFee ∧
-      (s.chainId ≠ 4 → calcDifficulty c.time p = (c.difficulty : Int)) ∧ (s.revCheck = true → c.rev = p.rev) := by
+      (s.chainId ≠ 4 → calcDifficulty c.time p = (c.difficulty : Int)) ∧ c.rev = p.rev := by
   unfold verifyHeader at h
   split at h
   · cases h
@@ -678,7 +679,7 @@ theorem verifyHeader_ok {s : State} {now : Nat} {c : Header} (h : verifyHeader e
                 · rename_i hd
                   simp at h
                 · rename_i hd; simpa using hd
-              · intro hr; simpa [hr] using hrv
+              · simpa using hrv
             · rename_i hne
               exact (hne h).elim
 
@@ -686,7 +687,7 @@ theorem checkValidity_ok {s : State} {now : Nat} {c : Header} (h : checkValidity
     ∃ p, parentOf s c = some p ∧ env.hash p = c.parentHash ∧ p.time < c.time ∧ c.time ≤ now + 15 ∧
       validateBasic c = true ∧ verifyGasLimit p.gasLimit c.gasLimit = true ∧ calcBaseFee p = some c.baseFee ∧
       (s.chainId ≠ 4 → calcDifficulty c.time p = (c.difficulty : Int) ∧ c.extraLen ≤ 32 ∧ env.powOk c = true) ∧
-      (s.revCheck = true → c.rev = p.rev) := by
+      c.rev = p.rev := by
   unfold checkValidity at h
   split at h
   · cases h
@@ -708,16 +709,12 @@ theorem checkValidity_ok {s : State} {now : Nat} {c : Header} (h : checkValidity
       exact (hne h).elim
 
 theorem checkValidity_complete {s : State} {now : Nat} {p c : Header} (hp : parentOf s c = some p)
-    (v : ValidChild env s.chainId now p c) (hrev : s.revCheck = true → c.rev = p.rev) : checkValidity env s now c = .ok := by
-  have hrc : (s.revCheck && decide (c.rev ≠ p.rev)) = false := by
-    by_cases hb : s.revCheck = true
-    · have := hrev hb; simp [hb, this]
-    · simp at hb; simp [hb]
+    (v : ValidChild env s.chainId now p c) : checkValidity env s now c = .ok := by
   have h1 : ¬ (c.time > now + 15) := by have := v.timeFuture; omega
   have h2 : ¬ (c.time ≤ p.time) := by have := v.timeParent; omega
   have hvh : verifyHeader env s now c = .ok := by
     unfold verifyHeader verifyEip1559
-    simp only [hp, v.hash, hrc, ne_eq, not_true_eq_false, Bool.false_eq_true, ↓reduceIte, h1, h2, v.gas, Bool.not_true, v.baseFee]
+    simp only [hp, v.hash, v.rev, ne_eq, not_true_eq_false, ↓reduceIte, h1, h2, v.gas, Bool.not_true, v.baseFee]
     by_cases hc : s.chainId = 4
     · simp [hc]
     · simp [(v.pow hc).1]
@@ -737,7 +734,7 @@ theorem checkValidity_complete {s : State} {now : Nat} {p c : Header} (hp : pare
 theorem accept_sound (hU : UOk env U) {v : Variant} {s s' : State} {now : Nat} {c : Header}
     (hk : ∀ k h, aget s.hdr k = some h → k = hkey env h ∧ U h) (uc : U c)
     (h : updateClient v env now s c = .ok s') :
-    ∃ p, Stored env s p ∧ ValidChild env s.chainId now p c ∧ s'.head = c ∧ (s.revCheck = true → c.rev = p.rev) := by
+    ∃ p, Stored env s p ∧ ValidChild env s.chainId now p c ∧ s'.head = c := by
   unfold updateClient at h
   split at h
   · cases h
@@ -747,7 +744,7 @@ theorem accept_sound (hU : UOk env U) {v : Variant} {s s' : State} {now : Nat} {
     · rename_i hcv
       obtain ⟨p, h1, h2, h3, h4, h5, h6, h7, h8, hrv⟩ := checkValidity_ok hcv
       obtain ⟨e1, _, sp⟩ := parent_facts hU hk uc h1
-      refine ⟨p, sp, ⟨h2, e1, h3, h4, h5, h6, h7, h8⟩, ?_, hrv⟩
+      refine ⟨p, sp, ⟨h2, e1, hrv, h3, h4, h5, h6, h7, h8⟩, ?_⟩
       repeat' split at h
       all_goals (try dsimp only at h)
       all_goals repeat' split at h
@@ -759,7 +756,7 @@ theorem accept_sound (hU : UOk env U) {v : Variant} {s s' : State} {now : Nat} {
 /-- one accepted update of the repaired client, no consensus state expired: always succeeds for a rule-abiding
     child of a stored header, re-establishes the invariant -/
 theorem step_fixed (hU : UOk env U) {s : State} (hi : Inv env U g s) {now : Nat} {c p : Header} (uc : U c)
-    (sp : Stored env s p) (hv : ValidChild env s.chainId now p c) (hrev : s.revCheck = true → c.rev = p.rev)
+    (sp : Stored env s p) (hv : ValidChild env s.chainId now p c)
     (hact : active s now = true) (hnp : pruneHeight s now = none) :
     ∃ s', updateClient .fixed env now s c = .ok s' ∧ Inv env U g s' ∧ s'.head = c := by
   have hpo : parentOf s c = some p := by
@@ -774,7 +771,7 @@ theorem step_fixed (hU : UOk env U) {s : State} (hi : Inv env U g s) {now : Nat}
   obtain ⟨s3, h3, hi3⟩ := update_core hU hi uc sp hv.hash hv.number
   refine ⟨_, ?_, hi3, rfl⟩
   unfold updateClient
-  simp only [hact, Bool.not_true, checkValidity_complete hpo hv hrev, pruneStep, hnp]
+  simp only [hact, Bool.not_true, checkValidity_complete hpo hv, pruneStep, hnp]
   simp only [Bool.false_eq_true, ↓reduceIte, h3]
 
 /-- states of the repaired client reachable from its creation with `g` by any sequence of accepted updates
@@ -787,7 +784,7 @@ inductive Reach (env : Env) (U : Header → Prop) (g : Header) (chainId trusting
 theorem init_inv (hU : UOk env U) (ug : U g) (chainId trusting : Nat) : Inv env U g (initState env chainId trusting g) := by
   have hget : ∀ k h, aget (initState env chainId trusting g).hdr k = some h → k = hkey env g ∧ h = g := by
     intro k h hk
-    simp only [initState, initStateR, aget] at hk
+    simp only [initState, aget] at hk
     split at hk
     · rename_i e; cases hk; exact ⟨e.symm, rfl⟩
     · cases hk
@@ -806,12 +803,12 @@ theorem init_inv (hU : UOk env U) (ug : U g) (chainId trusting : Nat) : Inv env 
   refine ⟨?_, ?_, ?_, ?_⟩
   · intro k h hk; obtain ⟨e, e2⟩ := hget k h hk; subst e2; exact ⟨e, ug⟩
   · intro k h hk; left; exact (hget k h hk).2
-  · simp [initState, initStateR, aget]
+  · simp [initState, aget]
   · intro n a ha
     have hh : (initState env chainId trusting g).head = g := rfl
     rw [hh] at ha
     cases n with
-    | zero => simp [walkCur] at ha; subst ha; simp [initState, initStateR, aget, consOf]
+    | zero => simp [walkCur] at ha; subst ha; simp [initState, aget, consOf]
     | succ n => rw [up_succ, hnp] at ha; cases ha
 
 theorem reach_inv (hU : UOk env U) (ug : U g) {chainId trusting : Nat} {s : State}
@@ -819,13 +816,13 @@ theorem reach_inv (hU : UOk env U) (ug : U g) {chainId trusting : Nat} {s : Stat
   induction hr with
   | init => exact init_inv hU ug chainId trusting
   | @step s0 s1 now0 c0 _ uc hnp hstep ih =>
-    obtain ⟨p, sp, hv, _, hrv⟩ := accept_sound hU ih.key uc hstep
+    obtain ⟨p, sp, hv, _⟩ := accept_sound hU ih.key uc hstep
     have hact : active s0 now0 = true := by
       unfold updateClient at hstep
       split at hstep
       · cases hstep
       · rename_i ha; simpa using ha
-    obtain ⟨s'', h1, h2, _⟩ := step_fixed hU ih uc sp hv hrv hact hnp
+    obtain ⟨s'', h1, h2, _⟩ := step_fixed hU ih uc sp hv hact hnp
     rw [hstep] at h1
     cases h1
     exact h2
@@ -835,9 +832,9 @@ theorem reach_inv (hU : UOk env U) (ug : U g) {chainId trusting : Nat} {s : Stat
     lowest consensus state unexpired). -/
 theorem never_wedged (hU : UOk env U) (ug : U g) {chainId trusting : Nat} {s : State}
     (hr : Reach env U g chainId trusting s) {now : Nat} {p c : Header} (uc : U c) (sp : Stored env s p)
-    (hv : ValidChild env s.chainId now p c) (hrev : c.rev = p.rev) (hact : active s now = true) (hnp : pruneHeight s now = none) :
+    (hv : ValidChild env s.chainId now p c) (hact : active s now = true) (hnp : pruneHeight s now = none) :
     ∃ s', updateClient .fixed env now s c = .ok s' ∧ s'.head = c := by
-  obtain ⟨s', h1, _, h3⟩ := step_fixed hU (reach_inv hU ug hr) uc sp hv (fun _ => hrev) hact hnp
+  obtain ⟨s', h1, _, h3⟩ := step_fixed hU (reach_inv hU ug hr) uc sp hv hact hnp
   exact ⟨s', h1, h3⟩
 
 /-- **ancestry_roots** (repaired `RestrictChain`): in every reachable state the consensus state kept for the height
@@ -977,7 +974,7 @@ theorem reachAny_keyOk {env : Env} {U : Header → Prop} {g : Header} (hU : UOk 
 theorem accept_sound_reach {env : Env} {U : Header → Prop} {g : Header} (hU : UOk env U) (ug : U g) {v : Variant}
     {chainId trusting : Nat} {s s' : State} (hr : ReachAny env U v g chainId trusting s) {now : Nat} {c : Header} (uc : U c)
     (h : updateClient v env now s c = .ok s') :
-    ∃ p, Stored env s p ∧ ValidChild env s.chainId now p c ∧ s'.head = c ∧ (s.revCheck = true → c.rev = p.rev) :=
+    ∃ p, Stored env s p ∧ ValidChild env s.chainId now p c ∧ s'.head = c :=
   accept_sound hU (reachAny_keyOk hU ug hr) uc h
 
 /-! ### concrete witnesses: the pinned `RestrictChain` violates both properties; non-vacuity of the hypotheses -/
@@ -1022,7 +1019,7 @@ theorem never_wedged_orig_false :
       revert this; intro this
       have h0 : (wrun .orig wInit [wA1, wB1]).map (·.chainId) = some 4 := by decide
       rw [this] at h0; simpa using h0
-    refine ⟨by decide, by decide, by decide, by decide, by decide, by decide, by decide, ?_⟩
+    refine ⟨by decide, by decide, by decide, by decide, by decide, by decide, by decide, by decide, ?_⟩
     intro hc; exact absurd e hc
   obtain ⟨s', h7⟩ := h s wA1 wA2 h1 h2 hv
   rw [h6] at h7; cases h7
@@ -1057,7 +1054,7 @@ example : ∃ s, Reach wenv wU wG 4 1000000 s ∧ s.head = wB1 ∧ Stored wenv s
   have r1 := Reach.step (now := 2000) (c := wA1) (s' := (wrun .fixed wInit [wA1]).get (by decide)) r0 (by decide) (by decide) (by decide)
   have r2 := Reach.step (now := 2000) (c := wB1) (s' := (wrun .fixed wInit [wA1, wB1]).get (by decide)) r1 (by decide) (by decide) (by decide)
   refine ⟨_, r2, by decide, by decide, ?_⟩
-  refine ⟨by decide, by decide, by decide, by decide, by decide, by decide, by decide, ?_⟩
+  refine ⟨by decide, by decide, by decide, by decide, by decide, by decide, by decide, by decide, ?_⟩
   intro hc; exact absurd (by decide) hc
 
 end TM.Eth
